@@ -170,7 +170,7 @@ class Interp:
         s.mod, s.ex = mod, (ex or EX); s.steps = 0; s.max_steps = max_steps
         s.events = []      # (kind, msg, line)
         s.nobj = 0; s.fresh_n = 0
-        s.trig = {}; s.accesses = None; s.call_hooks = {}; s.lastframe = {}; s.frames = {}; s.stack = []; s.omp_mode = 'seq'; s.in_reduction = False; s.store_hooks = {}
+        s.trig = {}; s.accesses = None; s.call_hooks = {}; s.lastframe = {}; s.frames = {}; s.stack = []; s.omp_mode = 'seq'; s.in_reduction = False; s.store_hooks = {}; s.call_replace = {}
     def fresh_real(s, p="f"):
         s.fresh_n += 1; return z3.Real("%s!%d" % (p, s.fresh_n))
     def newobj(s, name, size, init=None, kind="arg"):
@@ -447,6 +447,7 @@ class Interp:
         raise NotImplementedError("call " + name)
     # ---- execution
     def call(s, fname, args, depth=0):
+        if fname in s.call_replace: return s.call_replace[fname](s, args)      # a proved specification stands in for the body
         f = s.mod.funcs[fname]
         if fname in s.call_hooks: s.call_hooks[fname](s, args)
         env = {}
